@@ -104,6 +104,8 @@ def apply(w, ev):
     elf = w.elf
     if k == 'section':
         return sec_obs(elf.get_section(ev[1]))
+    if k == 'section_typed':
+        return sec_obs(w.elf.get_section(ev[1], (ev[2],)))
     if k == 'section_by_name':
         return sec_obs(elf.get_section_by_name(ev[1]))
     if k == 'section_index':
@@ -328,8 +330,16 @@ def derive_events(data, max_dies=40, iterators=True, scramble=True, light=False,
         if i < 10:
             ev.append(('section', i))
         names.append(s.name)
-    for n in sorted(set(names))[:5 if not light else 3] + [n for n in names if n == '.unwind_like']:
-        ev += [('section_by_name', n), ('section_index', n)]
+    dups = sorted({n for n in names if names.count(n) > 1})[:2]
+    for n in sorted(set(names))[:5 if not light else 3] + [n for n in names if n == '.unwind_like'] + dups:
+        if ('section_by_name', n) not in ev:
+            ev += [('section_by_name', n), ('section_index', n)]
+    if dups:
+        ev += [('has_section', dups[0]), ('section_by_name', names[-1])]       # a name that sorts after the duplicates / the last section
+    # access by index with a type filter: the wrong type must be refused whether or not the section was touched before
+    for i in ((1, 2) if not light else (1,)):
+        if i < len(names):
+            ev += [('section_typed', i, 'SHT_STRTAB'), ('section_typed', i, 'SHT_NOBITS')]
     ev += [('section_by_name', '.absent'), ('has_section', '.absent'), ('has_section', names[-1] if names else '.x')]
     for i in range(min(elf.num_segments(), 4)):
         ev.append(('segment', i))
@@ -379,7 +389,12 @@ def derive_events(data, max_dies=40, iterators=True, scramble=True, light=False,
             o = cu.cu_offset
             ev += [('CU_at', o), ('CU_containing', o), ('CU_containing', o + 1), ('CU_containing', o + cu.size - 1), ('top_DIE', o), ('dump', o), ('lineprog', o)]
             iters.append(('DIEs', o))
+            nnull = 0
             for d in cu.iter_DIEs():
+                if d.is_null() and nnull < 2 and not light:
+                    # the null entry that ends a child list is an entry too: lookup by its offset and the way up from it
+                    nnull += 1
+                    ev += [('DIE_at', d.offset), ('parent', d.offset)]
                 if d.is_null() or ndies >= max_dies:
                     continue
                 ndies += 1
@@ -464,7 +479,9 @@ def derive_events(data, max_dies=40, iterators=True, scramble=True, light=False,
 def _machine_specific():
     """content whose decoding depends on the file's own machine: a section type in the processor range (SHT_X86_64_UNWIND here, SHT_ARM_EXIDX for the foreign file)"""
     from mcx import elfgen as eg
-    return [eg.Sec('.unwind_like', 0x70000001, data=b'\0' * 16, flags=2, addr=0x404000, align=4)]
+    # ... and two sections that share one name (as in lib_with_two_dynstr_sections): by-name lookups must give the same one whatever was looked up before
+    return [eg.Sec('.unwind_like', 0x70000001, data=b'\0' * 16, flags=2, addr=0x404000, align=4),
+            eg.Sec('.twice', 1, data=b'first...', flags=2, addr=0x404100, align=4), eg.Sec('.twice', 1, data=b'second..', flags=2, addr=0x404200, align=4)]
 
 
 def model_file(kind):
